@@ -79,10 +79,44 @@ def gen_doc(k):
     return psd
 
 
+def twin_bytes(raw):
+    """same document, same names / ids / keys / structure, different payload: every pattern tile and every
+    RAW-stored layer channel has its samples xor-ed.  A cache keyed by an identifier instead of by content
+    makes the original document, processed after its twin, come out with the twin's pixels."""
+    from psd_tools.constants import Compression, Tag
+
+    low = PSD.read(io.BytesIO(raw))
+    changed = 0
+    tb = low.layer_and_mask_information.tagged_blocks
+    if tb is not None:
+        for key in (Tag.PATTERNS1, Tag.PATTERNS2, Tag.PATTERNS3):
+            if key in tb:
+                for pattern in tb.get_data(key):
+                    for ch in pattern.data.channels:
+                        if ch.is_written and ch.depth in (8, 16, 32) and ch.rectangle:
+                            data = ch.get_data()
+                            w, h = ch.rectangle[3], ch.rectangle[2]
+                            ch.set_data((w, h), bytes(x ^ 0x5A for x in data), ch.depth, ch.compression)
+                            changed += 1
+    li = low._get_layer_info()
+    if li is not None and li.channel_image_data:
+        for chans in li.channel_image_data:
+            for ch in chans:
+                if ch.compression == Compression.RAW and ch.data:
+                    ch.data = bytes(x ^ 0x5A for x in ch.data)
+                    changed += 1
+    b = io.BytesIO()
+    low.write(b)
+    return b.getvalue(), changed
+
+
 def observe(item, with_composite):
     out = {}
     try:
-        if item.startswith("gen:"):
+        if item.startswith("twin:"):
+            raw, changed = twin_bytes(open(item[5:], "rb").read())
+            out["twin_payloads_changed"] = changed
+        elif item.startswith("gen:"):
             psd = gen_doc(int(item[4:]))
             buf = io.BytesIO()
             psd.save(buf)
@@ -102,7 +136,7 @@ def observe(item, with_composite):
         b = io.BytesIO()
         psd.save(b)
         out["api_save"] = sha(b.getvalue())
-        if with_composite and psd.width * psd.height <= 256 * 256 and psd.depth == 8:
+        if psd.width * psd.height <= (256 * 256 if with_composite else 100 * 100) and psd.depth == 8:
             try:
                 im = psd.composite(force=True)
                 out["composite"] = sha(im.tobytes()) if im is not None else "none"
